@@ -277,6 +277,8 @@ func C14(c *Ctx) {
 	}
 
 	// R14.6 sender-chosen amounts are not negative
+	r.Rule("R14.8", "a self-destruct leaves nothing behind: the EVM credits the beneficiary of SELFDESTRUCT with the contract's balance and then calls the ledger's Suiside; in every Suiside implementation of the module's ledgers every path that reports success has set the account's balance to zero (SetBalance of a fresh zero value) - a path that skips it (an early return for an account already marked) leaves the credited amount in the contract as well: value is created.")
+	c.c14Suicide()
 	r.Rule("R14.6", "no negative amount: the amount of a transfer is parsed from transaction data (big.Int.SetString accepts a sign); every balance write of BlockExecutor.transfer lies behind an edge establishing amount.Sign() >= 0 - a negative amount passes the funds check, moves value from the receiver to the sender and can drive the receiver's balance below zero.")
 	if tr := c.fn("R14.6", "internal/executor.(*BlockExecutor).transfer"); tr != nil && len(tr.Params) >= 4 {
 		r.Floor("R14.6", "balance writes in transfer", c.transferSignCheck("R14.6", tr), 2)
@@ -470,4 +472,57 @@ func constValue(c *Ctx, path, name string) string {
 		return ""
 	}
 	return strings.Trim(k.Val().ExactString(), "\"")
+}
+
+// c14Suicide: R14.8.
+func (c *Ctx) c14Suicide() {
+	r := c.R
+	n := 0
+	for _, fn := range c.P.ModuleFuncs(true) {
+		if fn.Name() != "Suiside" || fn.Signature.Recv() == nil || len(fn.Blocks) == 0 || fn.Signature.Results().Len() != 1 || !strings.HasPrefix(core.PkgOf(fn), "internal/ledger") {
+			continue
+		}
+		n++
+		isZero := c.throughHelpers(func(in ssa.Instruction) bool {
+			call, ok := in.(ssa.CallInstruction)
+			if !ok || core.CalleeObj(call) == nil {
+				return false
+			}
+			nm := core.CalleeObj(call).Name()
+			if nm != "SetBalance" && nm != "setBalance" {
+				return false
+			}
+			args := call.Common().Args
+			if len(args) == 0 {
+				return false
+			}
+			// new(big.Int) / big.NewInt(0): a fresh zero
+			switch x := core.Strip(args[len(args)-1]).(type) {
+			case *ssa.Alloc:
+				return true
+			case *ssa.Call:
+				if core.CalleeName(x) == "math/big.NewInt" {
+					z, ok := core.ConstInt(x.Call.Args[0])
+					return ok && z == 0
+				}
+			}
+			return false
+		})
+		rs := core.Reach([]core.Point{core.EntryOf(fn)}, isZero, nil)
+		bad := ""
+		for _, ret := range core.Returns(fn) {
+			if !rs.Has(ret) {
+				continue
+			}
+			for _, o := range core.RetOrigins(ret.Results[0]) {
+				if k, isC := core.Strip(o.V).(*ssa.Const); isC && k.Value != nil && k.Value.ExactString() == "false" {
+					continue
+				}
+				bad = "the return at " + c.P.Pos(ret.Pos()) + " can report success without the balance having been zeroed; path (lines): " + rs.Witness(c.P, ret)
+			}
+		}
+		r.Check(bad == "", "R14.8", shortFn(fn)+": success only after the balance is zero", c.P.Pos(fn.Pos()), "every path that returns true passes SetBalance(0)",
+			bad+": the EVM has already credited the beneficiary, so the amount exists twice")
+	}
+	r.Floor("R14.8", "Suiside implementations of the module's ledgers", n, 1)
 }
